@@ -5,7 +5,7 @@ D=$(cd "$1" && pwd); ID=$2; TIER=${3:-quick}
 cd /repo
 if [ -n "$(git status --porcelain --untracked-files=no)" ]; then echo "/repo is not clean"; exit 2; fi
 git apply $D/patch.diff || { echo "patch does not apply"; exit 2; }
-trap 'git -C /repo checkout -- . ' EXIT
+trap 'git -C /repo checkout -- . ; /verif/scripts/build.sh >/dev/null 2>&1' EXIT
 OUT=$(/verif/scripts/check.sh $ID $TIER 2>&1); RC=$?
 echo "$OUT" | grep -E "^VIOLATION|rule=|^check|HARNESS" | head -12
 if [ $RC = 1 ]; then echo "DETECTED by $ID ($TIER)"; elif [ $RC = 0 ]; then echo "MISSED by $ID ($TIER)"; else echo "HARNESS-ERROR rc=$RC from $ID"; fi
